@@ -49,6 +49,9 @@ def correspondence(ctx):
     for s_ in structured_strings(ctx, 600 if ctx.tier == 'quick' else 8000, ['filler_ascii', 'filler_2', 'filler_3', 'filler_4', 'ctx', 'ctx', 'ctx', 'ctx_partner', 'marks', 'rtl', 'bad', 'compat']):
         cases.append(f'allows.id|{hexs(s_)}')
         cases.append(f'allows.ff|{hexs(s_)}')
+    for s_ in product_strings(ctx, fillers=(0x61, 0xE9, 0x65E5, 0x4E00), extra_long=False):
+        cases.append(f'allows.id|{hexs(s_)}')
+        cases.append(f'allows.ff|{hexs(s_)}')
     cases += fuzz_cases(ctx, {8, 9})      # coverage-guided search of the tree under check (only when the source changed / thorough)
     res = run_cases(cases, ctx.work)
 
